@@ -21,11 +21,10 @@ ASSUMPTIONS = [
     'partition_iterator: partition_size >= 1; group_into_tensor_product_basis_sets: coefficients are 0 or dyadic with |c| >= 1e-8 (exact regime)',
 ]
 OPEN_STATEMENTS = [
-    'pair_within_covers (every unordered pair of labels occurs in some yield, all lengths): NOT proved as a theorem; needs the alignment of the bare labels of the two recursive halves (a relational/parametricity argument). Proved: pair_within_matching (perfect matchings, number of yields, all lengths). Coverage is checked by the Spec oracle on every length <= 48 (quick) / 100 (thorough).',
-    'pws_covers (pair_within_simultaneously and the binned / symmetric variants: every admissible 4 labels have a co-scheduled split): open as a theorem; checked by the Spec oracle and an independent brute force for every label count <= 26 / 48 and on random bin sizes.',
-    'binary_partition_spec / partition_iterator_spec / pauli_string_iterator_spec: open as theorems; checked by the Spec oracle (all n <= 40/80 for k = 2; n <= 11/16, k <= 4/5; Pauli words n <= 7/9, k <= 3).',
-    'tpb_groups_spec (group_into_tensor_product_basis_sets returns a partition into tensor-product-basis sets for every permutation sequence): open as a theorem; Model compared exactly on the recorded permutations and Spec oracle tpbOk on every generated case.',
+    'pws_covers (pair_within_simultaneously and the binned / symmetric variants: every admissible 4 labels have a co-scheduled split; every yield is a partial matching): open as a theorem; checked by the Spec oracle and an independent brute force for every label count <= 26 / 48 and on random bin sizes.',
+    'partition_iterator_spec for k >= 3 (every k-subset perfectly split) and pauli_string_iterator_spec: open as theorems (k = 2 is binary_partition_spec, proved); checked by the Spec oracle (n <= 11/16, k <= 4/5; Pauli words n <= 7/9, k <= 3).',
     '_asynchronous_iter Latin-square coverage: open as a theorem; Spec oracle asyncCovers on random iterator lists.',
+    'tpb_groups_spec is proved under the hypothesis PermsCover (every shuffle lists each current basis at least once — true for genuine permutations); that numpy.random.RandomState.shuffle produces a permutation is part of the trusted base (the recorded shuffles are checked to reproduce the unpatched call).',
 ]
 
 
